@@ -957,6 +957,9 @@ func (c *ctx) checkChildren(api, trig string, got []generic.PathNode, v *tbin.Va
 		if recurse && isC {
 			c.checkChildren(api, trig, got[i].Next, want[i].V, want[i].S, recurse, noscan)
 		}
+		if recurse && !isC && len(got[i].Next) != 0 {
+			c.viol(api, trig, "scalar-has-grandchildren", "scalar child %d (%s) is listed with %d (stale) children of its own", i, want[i].V, len(got[i].Next))
+		}
 		if !recurse && len(got[i].Next) != 0 {
 			c.viol(api, trig, "lazy-has-grandchildren", "child %d has %d (stale) grandchildren in lazy mode", i, len(got[i].Next))
 		}
